@@ -21,7 +21,7 @@ RULE = ("cases: trees with many equal durations (same-instant completions, 0-3 e
         "before the end; distinct = distinct scenario digest")
 ASSUMPTIONS = RT_ASSUMPTIONS
 
-PROFILE = S.GENERAL.but(p_rerun=8, 
+PROFILE = S.GENERAL.but(p_block=6, p_rerun=8, 
     durations=((0, 3), (1, 6), (2, 4), (3, 1)), ks=((0, 3), (1, 2), (2, 2), (3, 1)),
     p_forever=25, p_never=25, p_raise=15, p_critical=20, p_edge=30, p_wild=10,
     timeouts=((None, 14), (2, 1), (2.5, 1), (3, 1), (4, 1), (6, 1)),
